@@ -186,6 +186,58 @@ pub fn run(tier: Tier, seed: u64) -> i32 {
         n_long.fetch_add(nl, Ordering::Relaxed);
     });
     report.count("opcode_sweep_headers", evals2.load(Ordering::Relaxed));
+    // the COMBINED objects (ServerCrypto / ClientCrypto) on a strided subset: emitters and decoders alternate
+    let comb = AtomicU64::new(0);
+    let stride = tier.pick(5usize, 1usize);
+    let comb_sizes: Vec<u32> = (0..=0x7FFFFFu32).step_by(stride).collect();
+    comb_sizes.par_chunks(1 << 14).for_each(|part| {
+        let mut sc = ciphers::wrath_server(&key);
+        let mut cc = ciphers::wrath_client(&key);
+        let mut ks = wrath_stream(&key, Dir::ServerToClient);
+        let mut n = 0u64;
+        for (i, &size) in part.iter().enumerate() {
+            let op: u16 = [0x1EEu16, 0xFFFF, 0x8000, 0x0001][i % 4];
+            let r = catch(|| {
+                let emitted: Vec<u8> = if i % 2 == 0 {
+                    sc.encrypt_server_header(size, op).to_vec()
+                } else {
+                    let mut v = vec![];
+                    sc.write_encrypted_server_header(&mut v, size, op).map_err(|e| e.to_string())?;
+                    v
+                };
+                let mut plain = emitted.clone();
+                ks.apply(&mut plain);
+                if plain != wrath_server_header_plain(size, op) {
+                    return Err(format!("combined ServerCrypto emitted {} whose plaintext {} is not the layout for size={size:#x} opcode={op:#x}", hex(&emitted), hex(&plain)));
+                }
+                let h = if i % 3 == 0 {
+                    match cc.attempt_decrypt_server_header([emitted[0], emitted[1], emitted[2], emitted[3]]) {
+                        WrathServerAttempt::Header(h) => h,
+                        WrathServerAttempt::AdditionalByteRequired => cc.decrypt_large_server_header(*emitted.get(4).ok_or("attempt asks for a fifth byte of a 4-byte header")?),
+                    }
+                } else {
+                    cc.read_and_decrypt_server_header(Cursor::new(&emitted[..])).map_err(|e| e.to_string())?
+                };
+                if (h.size, h.opcode) != (size, op) {
+                    return Err(format!("combined ClientCrypto decoded size={:#x} opcode={:#x} for size={size:#x} opcode={op:#x}", h.size, h.opcode));
+                }
+                Ok(())
+            });
+            match r {
+                Ok(Ok(())) => n += 1,
+                Ok(Err(m)) => {
+                    viol(&report, "combined-objects", "mismatch", &key, json!({"size": size, "opcode": op, "first_size_of_segment": part[0], "index_in_segment": i}), m);
+                    return;
+                }
+                Err(m) => {
+                    viol(&report, "combined-objects", "panic", &key, json!({"size": size, "opcode": op}), m);
+                    return;
+                }
+            }
+        }
+        comb.fetch_add(n, Ordering::Relaxed);
+    });
+    report.count("combined_object_headers", comb.load(Ordering::Relaxed));
     report.require("short_headers");
     report.require("long_headers");
     report.count("short_headers", n_short.load(Ordering::Relaxed));
@@ -259,7 +311,7 @@ pub fn run(tier: Tier, seed: u64) -> i32 {
             viol(&report, "header-sequences", "sequence", k, json!(p.iter().map(|a| json!({"size": a.size, "opcode": a.opcode, "two_step": a.two_step})).collect::<Vec<_>>()), m);
         }
     }
-    let total = evals.load(Ordering::Relaxed) + evals2.load(Ordering::Relaxed);
+    let total = evals.load(Ordering::Relaxed) + evals2.load(Ordering::Relaxed) + comb.load(Ordering::Relaxed);
     report.count("transitions", total);
     report.count("states", total + 1);
     report.set("traces_validated_against_impl", json!(report.get("transitions")));
